@@ -1,15 +1,21 @@
 """C01 — requests conform to the WSDL and schema they were built from."""
+import re
+
 from . import common, family as F
 from .common import cN, cbool, clist
 
 THEOREMS = [
     "marshal_conforms", "doc_wrapped_conforms", "doc_bare_conforms", "rpc_conforms",
+    "request_conforms", "request_body_independent_of_headers",
+    "optional_container_reaches_every_member", "members_of_optional_container_omitted",
+    "required_member_not_omitted",
     "children_in_schema_order", "object_node_shape", "nodes_named_and_qualified_by_declaration",
     "list_side_condition_necessary", "theorem_instance_holds",
     "wildcard_shortcut_refuted", "undeclared_key_refuted",
 ]
 
-PRE = "From SV Require Import Lib.Base Fam.Schema C01.Marshal C01.Guard C01.MarshalProofs C01.Styles."
+PRE = ("From SV Require Import Lib.Base Fam.Schema C01.Marshal C01.Guard C01.MarshalProofs C01.Styles "
+       "C01.Request.")
 
 
 def envelope_body(data):
@@ -38,7 +44,7 @@ def pick_prefixes(rng, n):
         ks = list(range(n + 2))
         rng.shuffle(ks)
         return ["ns%d" % k for k in ks[:n]]
-    return rng.sample(["ns0", "ns1", "ns2", "ns10", "tns", "xs", "q", "SOAP-ENC", "m"], n)
+    return rng.sample(["ns0", "ns1", "ns2", "ns10", "tn", "xs", "q", "SOAP-ENC", "m"], n)
 
 
 def gen_args(rng, S, t):
@@ -78,6 +84,32 @@ def absent_features(S, decl_t, v, acc, depth):
             absent_features(S, S.type(p.tref[1], p.tref[2]), x, acc, depth + 1)
 
 
+def show(v):
+    """readable, run-independent rendering of an abstract value"""
+    if isinstance(v, dict):
+        return "{%s}" % ", ".join("%s=%s" % (k, show(x)) for k, x in v.items())
+    if isinstance(v, (list, tuple)) and not (isinstance(v, tuple) and v and v[0] == "leaf"):
+        return "[%s]" % ", ".join(show(x) for x in v)
+    if isinstance(v, F.VObj):
+        return "%s{%s}" % ("T(%d,%s)" % v.ty if v.ty else "dict", ", ".join("%s=%s" % (k, show(x)) for k, x in v.fields))
+    if isinstance(v, tuple):
+        return repr(v[1])
+    return repr(v)
+
+
+def prefix_rebound(env):
+    """does some prefix stand for two namespaces in different parts of the request?"""
+    seen = {}
+    stack = [env]
+    while stack:
+        n = stack.pop()
+        for pfx, uri in n.nsmap.items():
+            if pfx != "xml" and seen.setdefault(pfx, uri) != uri:
+                return True
+        stack.extend(n.elements())
+    return False
+
+
 def features(v, acc):
     if v is None:
         acc.add("None")
@@ -108,6 +140,12 @@ def run(ck):
         "modelled: literal marshaller (Typed.start/skip/node/encode, appenders, GraphResolver lookups, "
         "sudsobject.Iter ordering, Document.bodycontent/mkparam, RPC.bodycontent/method, PartElement) at the "
         "level of the namespace infoset",
+        "the request as a whole (coq/C01/Request.v): Binding.headercontent/mkheader for the header parts the "
+        "binding declares (options.soapheaders as dict or tuple of values), header/body/envelope; the whole "
+        "envelope read by expat is compared, so a prefix fix-up that moves Body, the wrapper or a header entry "
+        "into another namespace is a spec failure here",
+        "optional containers (coq/C01/OptionalProofs.v): members of a minOccurs=0 sequence/choice/all/group "
+        "reference of a nested object left None are omitted whatever their own minOccurs",
         "rpc/encoded (SOAP section 5) is modelled and proved separately: coq/C01/Encoded.v, EncodedProps.v",
         "not modelled here: prefix assignment/serialisation (C05), argument binding (C08), lexical forms (C06)",
     ]
@@ -115,7 +153,7 @@ def run(ck):
 
     n_schemas = 50 if ck.tier == "quick" else 500
     per_type = 3 if ck.tier == "quick" else 6
-    W, B, R = [], [], []          # (case text, meta)
+    W, B, R, Q = [], [], [], []          # (case text, meta)
     rng = ck.rng
 
     def call(client, port, opname, args, kwargs, extract):
@@ -129,11 +167,21 @@ def run(ck):
             return False, repr(e)
 
     for si in range(n_schemas):
-        if si % 5 < 2:      # denser in nested objects with optional containers
+        if si % 2 == 0:     # denser in nested objects with optional containers
             S = F.gen_schema(rng, markup_attr_names=True, p_nested=0.45, p_cont_opt=0.6, p_named=0.45)
         else:
             S = F.gen_schema(rng, markup_attr_names=True)
-        ops = [F.Op("op%d" % k, "wrapped", in_type=(t.ns, t.name)) for k, t in enumerate(S.types)]
+        # header parts (soap:header) declared for every wrapped operation: global elements of any of the
+        # namespaces, typed by a complex type of the schema or a builtin
+        hdrs = []
+        for j in range(rng.choice([1, 2, 2, 3])):
+            if rng.random() < 0.7:
+                ht = rng.choice(S.types)
+                htr = ("n", ht.ns, ht.name)
+            else:
+                htr = ("b", rng.choice(F.BUILTINS))
+            hdrs.append(("hd%d" % j, rng.randrange(len(S.namespaces)), htr))
+        ops = [F.Op("op%d" % k, "wrapped", in_type=(t.ns, t.name), headers=hdrs) for k, t in enumerate(S.types)]
         tb = rng.choice(S.types)
         tr = rng.choice(S.types)
         b1, b2 = rng.choice(F.BUILTINS), rng.choice(F.BUILTINS)
@@ -183,6 +231,68 @@ def run(ck):
                 absent_features(S, None, F.VObj((t.ns, t.name), list(given.items())), feats, 0)
                 ck.seen(("w", si, k, rep), nontrivial=any(isinstance(v, (F.VObj, list)) for v in args))
                 ck.count("wrapped-" + ci.split(" ")[0].strip("("))
+        # ---- the request as a whole, with typed headers (options.soapheaders as dict / tuple)
+        for k, t in enumerate(S.types):
+            for rep in range(1 if ck.tier == "quick" else 3):
+                I = F.new_interner()
+                P = F.CoqPrinter(S, I)
+                given, args = gen_args(rng, S, t)
+                xstq = rng.random() < 0.8
+                as_dict = rng.random() < 0.6
+                hvals = [F.gen_value(rng, S, F.Elem(hn, hns, True, htr), depth=1, absent_groups=ABSENT)
+                         for hn, hns, htr in hdrs]
+                if as_dict:
+                    hvals = [None if rng.random() < 0.25 else v for v in hvals]
+                else:
+                    hvals = hvals[:rng.choice([0, 1, len(hvals), len(hvals)])]
+                client.set_options(xstq=xstq)
+                impl, raw = False, ""
+                try:
+                    kwargs = dict((name, F.to_python(client, S, v)) for name, v in given.items())
+                    hpy = [F.to_python(client, S, v) for v in hvals]
+                    if as_dict:
+                        client.set_options(soapheaders=dict((h[0], v) for h, v in zip(hdrs, hpy) if v is not None))
+                    else:
+                        client.set_options(soapheaders=tuple(hpy))
+                    try:
+                        ctx = getattr(client.service["port_document"], "op%d" % k)(**kwargs)
+                        raw = ctx.envelope.decode("utf-8", "replace")
+                        impl = U.expat_parse(ctx.envelope)
+                    except suds.TypeNotFound as e:
+                        impl, raw = None, "TypeNotFound " + repr(e)
+                    except Exception as e:  # noqa
+                        impl, raw = False, raw + " " + repr(e)
+                except Exception as e:  # noqa
+                    impl, raw = False, "factory: " + repr(e)
+                finally:
+                    try:
+                        client.set_options(soapheaders=())
+                    except Exception:  # noqa
+                        pass
+                ci = "ITypeNotFound" if impl is None else "IOther" if impl is False else \
+                    "(IOk %s)" % F.node_to_coq(S, I, impl)
+                wrapper = "(mkE %s %s true (TNamed %s %s) false false false None)" % (
+                    cN(I("op%d" % k)), cN(1), cN(t.ns + 1), cN(I(t.name)))
+                hdecls = clist(["(global_elem %s %s %s)" % (cN(I(hn)), cN(hns + 1), P.tref(htr))
+                                for hn, hns, htr in hdrs], "edecl")
+                Q.append(("(mkQ %s %s (mkSN %s %s %s) %s %s %s %s %s %s)" % (
+                    P.schema(), cbool(xstq), cN(I("Envelope")), cN(I("Header")), cN(I("Body")), cbool(as_dict),
+                    hdecls, clist([P.value(v) for v in hvals], "value"), wrapper,
+                    clist([P.value(v) for v in args], "value"), ci),
+                    (wsdl, "op%d" % k, {"arguments": given, "soapheaders (%s)" % ("dict" if as_dict else "tuple"):
+                                        dict(zip([h[0] for h in hdrs], hvals))}, xstq, raw)))
+                n_h = len([v for v in hvals if v is not None])
+                feats.add("request-with-%d-typed-headers" % min(n_h, 2))
+                pfx = set(Rr.prefixes)
+                if n_h and any(re.match(r"^ns\d+$", x) for x in pfx):
+                    feats.add("typed-header-under-ns<k>-style-wsdl-prefixes")
+                for v in hvals:
+                    features(v, feats)
+                if impl not in (None, False) and prefix_rebound(impl):
+                    feats.add("request-binding-one-prefix-to-two-namespaces")
+                    ck.count("requests-binding-one-prefix-to-two-namespaces")
+                ck.seen(("q", si, k, rep), nontrivial=n_h > 0)
+                ck.count("request-" + ci.split(" ")[0].strip("("))
         # ---- bare & rpc
         for rep in range(per_type):
             I = F.new_interner()
@@ -254,7 +364,7 @@ def run(ck):
         for i in sorted(spec_bad)[:3]:
             wsdl, opname, given, xstq, raw = cases[i][1]
             ck.failing_input("C01:request-%s" % label,
-                             "%s request for %s(%s) does not conform to the schema" % (label, opname, repr(given)[:200]),
+                             "%s request for %s(%s) does not conform to the schema" % (label, opname, show(given)[:300]),
                              {"wsdl": wsdl.decode("utf-8"), "operation": opname, "arguments": repr(given),
                               "xstq": xstq, "envelope": raw, "case": cases[i][0]})
         ck.extra["%s_cases_inside_theorem_guard" % label] = len(res[preds[2]])
@@ -270,14 +380,21 @@ def run(ck):
     judge("wrapped", W, "wcase", "wrapped_agrees", "wrapped_spec_ok",
           "(fun c => wrapped_guard c && args_lists_ok (w_schema c) (w_wrapper c) (w_args c))",
           "wrapped_theorem_instance")
+    judge("whole", Q, "qcase", "request_agrees", "request_spec_ok",
+          "(fun c => request_guard c && args_lists_ok (q_schema c) (q_wrapper c) (q_args c))")
     judge("bare", B, "bcase", "bare_agrees", "bare_spec_ok", "bare_guard")
     judge("rpc", R, "rcase", "rpc_agrees", "rpc_spec_ok", "rpc_guard")
 
-    ck.rule = ("generated abstract schemas (1-3 namespaces, nested sequence/choice/all, extension chains, "
-               "qualified/unqualified forms, attributes, nillable/default/occurs) x {one document/literal wrapped "
-               "operation per type, a bare two-part operation, an rpc/literal two-part operation} x conforming "
-               "argument trees (dicts, factory objects incl. derived types, lists, None); distinct = (schema, op, "
-               "repetition) index; non-trivial = some argument is an object or list (all bare/rpc cases)")
+    ck.rule = ("generated abstract schemas (1-3 namespaces, nested sequence/choice/all - every other schema dense in "
+               "optional nested containers -, extension chains, qualified/unqualified forms, attributes incl. ones "
+               "named type/nil/arrayType/id/href, nillable/default/occurs), rendered with t<i> or ns<k>-style WSDL "
+               "prefixes, nested containers inline or as xsd:group references, optionally a block-local tns prefix "
+               "x {one document/literal wrapped operation per type with 1-3 soap:header parts, a bare two-part "
+               "operation, an rpc/literal two-part operation} x conforming argument trees (dicts, factory objects "
+               "incl. derived types, lists, None, whole optional containers of nested objects left None/absent) x "
+               "for the whole-request cases typed header values given as dict or tuple; distinct = (schema, op, "
+               "repetition) index; non-trivial = some argument is an object or list (all bare/rpc cases) / a typed "
+               "header is sent (whole-request cases)")
     if proof_ok is False:
         ck.unproved("proof obligation of C01 no longer checks: " + ck.proof_log[-1500:], {"log": ck.proof_log[-3000:]})
     # ---- rpc/encoded (SOAP section 5): coq/C01/Encoded*.v + harness/c01enc.py
